@@ -95,6 +95,7 @@ func rewriteHooked(file string, sites []hookSite) ([]byte, error) {
 	if err != nil {
 		return nil, err
 	}
+	var flags []string
 	for _, d := range f.Decls {
 		fd, ok := d.(*ast.FuncDecl)
 		if !ok {
@@ -151,9 +152,18 @@ func rewriteHooked(file string, sites []hookSite) ([]byte, error) {
 			} else {
 				stmt = &ast.BlockStmt{List: []ast.Stmt{&ast.ExprStmt{X: call}, &ast.ReturnStmt{}}}
 			}
-			// keep the original body (and its imports) behind a guard that is always taken
-			guard := &ast.IfStmt{Cond: ast.NewIdent("verifHooked"), Body: &ast.BlockStmt{List: []ast.Stmt{stmt}}}
+			// keep the original body (and its imports) behind a guard; a hook that calls the original
+			// function (conditional stubs) must reach the original body: re-entrancy flag
+			flag := "verifIn_" + s.recv + "_" + s.name
+			guardBody := []ast.Stmt{
+				&ast.AssignStmt{Lhs: []ast.Expr{ast.NewIdent(flag)}, Tok: token.ASSIGN, Rhs: []ast.Expr{ast.NewIdent("true")}},
+				&ast.DeferStmt{Call: &ast.CallExpr{Fun: &ast.FuncLit{Type: &ast.FuncType{Params: &ast.FieldList{}}, Body: &ast.BlockStmt{List: []ast.Stmt{
+					&ast.AssignStmt{Lhs: []ast.Expr{ast.NewIdent(flag)}, Tok: token.ASSIGN, Rhs: []ast.Expr{ast.NewIdent("false")}}}}}}},
+				stmt,
+			}
+			guard := &ast.IfStmt{Cond: &ast.BinaryExpr{X: ast.NewIdent("verifHooked"), Op: token.LAND, Y: &ast.UnaryExpr{Op: token.NOT, X: ast.NewIdent(flag)}}, Body: &ast.BlockStmt{List: guardBody}}
 			fd.Body.List = append([]ast.Stmt{guard}, fd.Body.List...)
+			flags = append(flags, flag)
 		}
 	}
 	var buf bytes.Buffer
@@ -162,6 +172,9 @@ func rewriteHooked(file string, sites []hookSite) ([]byte, error) {
 	}
 	// unused imports after removing bodies would not compile: keep them alive
 	out := buf.String()
+	for _, fl := range flags {
+		out += "\nvar " + fl + " bool\n"
+	}
 	var keep strings.Builder
 	for _, imp := range f.Imports {
 		name := ""
